@@ -7,6 +7,7 @@
   (`DDV.Bits.Model`).
 -/
 import DDV.Bits.Lemmas
+import DDV.Extracted.Tables
 
 namespace DDV.Props.C01
 open DDV.Bits
@@ -94,5 +95,45 @@ example : ∀ k, k < 16 → physBit .be .msb0 [0x20#8, 0x00#8] k = decide (k = 1
 
 example : InBounds ⟨16, true⟩ [0xAB#8, 0xCD#8, 0xEF#8] 3 17 := ⟨by decide, by decide, by decide⟩
 example : WalkPos 3 17 16 ∧ ¬ (16 % 8 = 0 ∧ 16 + 8 ≤ 17) := by unfold WalkPos; omega
+
+end DDV.Props.C01
+
+/-! ### The `DedupCast` table (regenerated from `ops.rs` on every run) -/
+namespace DDV.Props.C01
+open DDV.Bits DDV.Extracted
+
+/-- Width and signedness of a Rust integer type name on a target with `ptr`-bit pointers. -/
+def typeInfo (ptr : Nat) (t : String) : Option (Nat × Bool) :=
+  match t with
+  | "u8" => some (8, false) | "u16" => some (16, false) | "u32" => some (32, false)
+  | "u64" => some (64, false) | "u128" => some (128, false) | "usize" => some (ptr, false)
+  | "i8" => some (8, true) | "i16" => some (16, true) | "i32" => some (32, true)
+  | "i64" => some (64, true) | "i128" => some (128, true) | "isize" => some (ptr, true)
+  | _ => none
+
+/-- Whether a row's `cfg(...)` holds on a `ptr`-bit target. -/
+def cfgHolds (ptr : Nat) (cfg : String) : Option Bool :=
+  match cfg with
+  | "" => some true
+  | "cfg(target_pointer_width=\"16\")" => some (ptr == 16)
+  | "cfg(target_pointer_width=\"32\")" => some (ptr == 32)
+  | "cfg(target_pointer_width=\"64\")" => some (ptr == 64)
+  | "cfg(not(target_pointer_width=\"16\"))" => some (ptr != 16)
+  | _ => none
+
+def rowOk (ptr : Nat) (row : String × String × String) : Bool :=
+  match cfgHolds ptr row.2.2, typeInfo ptr row.1, typeInfo ptr row.2.1 with
+  | some false, _, _ => true
+  | some true, some (tb, ts), some (db, ds) => db == dedupWidth ptr tb && ds == ts
+  | _, _, _ => false
+
+/-- Every `impl_dedup_cast!` row of the source, on 16-, 32- and 64-bit targets, has the dedup width
+    `dedupWidth` the model (and hence every theorem above) uses, with the carrier's signedness; and
+    on each target every one of the twelve carriers has exactly one active row. -/
+theorem dedup_table_matches_model :
+    (∀ ptr ∈ [16, 32, 64], ∀ row ∈ dedupRows, rowOk ptr row = true) ∧
+    (∀ ptr ∈ [16, 32, 64], ∀ t ∈ ["u8", "u16", "u32", "u64", "u128", "usize", "i8", "i16", "i32", "i64", "i128", "isize"],
+      (dedupRows.filter fun row => row.1 == t && cfgHolds ptr row.2.2 == some true).length = 1) := by
+  decide
 
 end DDV.Props.C01
